@@ -78,6 +78,10 @@ class Link:
             b = bytearray(fr)
             b[max(0, len(b) // 2 - 1)] ^= 0x10
             fr = bytes(b)
+        if action == "corrupt0":        # damage in the control byte: the acknowledgement number reads one higher / lower
+            b = bytearray(fr)
+            b[0] ^= 0x01
+            fr = bytes(b)
         self.ncp.feed(fr)
         self.drain_ncp()
 
@@ -92,6 +96,10 @@ class Link:
         if action == "corrupt":
             b = bytearray(fr)
             b[max(0, len(b) // 2 - 1)] ^= 0x10
+            fr = bytes(b)
+        if action == "corrupt0":
+            b = bytearray(fr)
+            b[0] ^= 0x01
             fr = bytes(b)
         # the model gets the very bytes (valid or corrupted): it deframes them itself
         self.d.proto.data_received(fr)
@@ -129,9 +137,9 @@ def run_schedule(seed, window, nlabels, fault_rate, cancels, directed=None):
             elif r < 0.22:
                 lab = ("nsub",)
             elif r < 0.55:
-                lab = ("h2n", "deliver" if rng.random() > fault_rate else rng.choice(["drop", "corrupt", "dup"]))
+                lab = ("h2n", "deliver" if rng.random() > fault_rate else rng.choice(["drop", "corrupt", "dup", "corrupt0"]))
             elif r < 0.88:
-                lab = ("n2h", "deliver" if rng.random() > fault_rate else rng.choice(["drop", "corrupt", "dup"]))
+                lab = ("n2h", "deliver" if rng.random() > fault_rate else rng.choice(["drop", "corrupt", "dup", "corrupt0"]))
             elif r < 0.93:
                 lab = ("htimeout",)
             elif r < 0.97:
@@ -296,6 +304,16 @@ class Check(PropertyCheck):
                 for _ in range(k):
                     lab += [("nsub",), ("n2h", "deliver"), ("h2n", "deliver")]
                 lab += [("nsub",)] * w + [("n2h", "drop")] * w + [("htimeout",), ("h2n", "deliver")]
+                cases.append({"seed": 1, "window": w, "n": 0, "fault": 0.0, "cancels": False, "directed": lab})
+        # directed: the host's DATA frame is lost; while it is pending a frame of the NCP arrives damaged in its control byte
+        # so that its acknowledgement number reads one higher (detectable: the CRC no longer matches): nothing may be taken
+        # from a damaged frame.  From every frame number (k warm-up exchanges first)
+        for w in (1, 2):
+            for k in range(0, 9):
+                lab = []
+                for _ in range(k):
+                    lab += [("hsub",), ("h2n", "deliver"), ("n2h", "deliver")]
+                lab += [("hsub",), ("h2n", "drop"), ("nsub",), ("n2h", "corrupt0"), ("nsub",), ("n2h", "corrupt0")]
                 cases.append({"seed": 1, "window": w, "n": 0, "fault": 0.0, "cancels": False, "directed": lab})
         # directed: a send of the host fails by timeouts alone (every transmission lost) while the NCP stays healthy and goes
         # on sending: what the host acknowledges afterwards it has handed up
